@@ -80,8 +80,30 @@ Blends == {PB(Nums(k, 1) \o Num(cnt) \o <<16>> \o tail, BK) : k \in 0..8, cnt \i
           \cup {PB(Nums(3, 1) \o <<255, 0, 1, 0, 0, 16>> \o <<5>>, BK), PB(<<16>> \o Tail1, BK), PB(<<15>> \o Tail1, BK),
                 PB(<<255, 0, 0, 0, 0, 15>> \o Tail1, BK)}
 
+\* many stem hints (the hinter keeps the edges of the active horizontal stems in a map of 96 entries: 48 stems fill it):
+\* s stems in operators of at most 24, rising, falling, overlapping or ghost stems, then a mask naming all / every other
+\* stem (or none) and a short path so that the hints are used
+\* (i is the stem's number in the glyph; "ghost1" / "ghost3": one / three leading ghost stems - one edge each - then
+\* ordinary ones, which is how the map gets to an odd number of edges)
+StemPair(pat, i) == CASE pat = "up" -> Num(10) \o Num(5) [] pat = "down" -> Num(-20) \o Num(5)
+                      [] pat = "same" -> Num(IF i = 1 THEN 10 ELSE -5) \o Num(5)
+                      [] pat = "ghost1" -> (IF i = 1 THEN Num(21) \o Num(-21) ELSE Num(IF i = 2 THEN 20 ELSE 10) \o Num(10))
+                      [] pat = "ghost3" -> (IF i <= 3 THEN Num(IF i = 1 THEN 21 ELSE 31) \o Num(-21) ELSE Num(IF i = 4 THEN 20 ELSE 10) \o Num(10))
+                      [] OTHER -> Num(IF i % 2 = 0 THEN 30 ELSE 10) \o Num(IF i % 2 = 0 THEN -20 ELSE -21)
+RECURSIVE StemOpsFrom(_, _, _, _)
+StemOpsFrom(j, s, pat, op) == IF s = 0 THEN <<>> ELSE LET k == IF s > 24 THEN 24 ELSE s IN
+                                Concat([i \in 1..k |-> StemPair(pat, j + i)]) \o op \o StemOpsFrom(j + k, s - k, pat, op)
+\* all stems after one operator (the positions of a stem operator start from the baseline again, so groups would coincide
+\* and be dropped as duplicates); the evaluator accepts up to 513 operands
+StemOps(s, pat, op) == Concat([i \in 1..s |-> StemPair(pat, i)]) \o op
+ShortPath == Num(0) \o Num(0) \o <<21>> \o Num(100) \o Num(0) \o Num(0) \o Num(480) \o Num(-100) \o Num(0) \o <<5, 14>>
+ManyStems == {NoSubrs(StemOps(s, pat, <<18>>) \o (IF m = 0 THEN <<>> ELSE <<19>> \o [i \in 1..((s + 7) \div 8) |-> m]) \o ShortPath) :
+                s \in {23, 46, 47, 48, 49, 50, 51, 72, 95, 96, 97, 120}, pat \in {"up", "down", "same", "ghost", "ghost1", "ghost3"}, m \in {0, 255, 170}}
+              \cup {NoSubrs(StemOpsFrom(0, s, pat, <<18>>) \o ShortPath) : s \in {48, 49, 97}, pat \in {"up", "ghost1"}}
+              \cup {NoSubrs(StemOps(s, "up", <<1>>) \o StemOps(s, "up", <<3>>) \o <<19>> \o [i \in 1..((2 * s + 7) \div 8) |-> 255] \o ShortPath) : s \in {24, 47, 48, 49}}
+
 ExtremeAll == Extreme \cup ExtremeBlends
-ProgramsQuick == Arity \cup Blends \cup Stale \cup Numbers \cup Masks \cup Calls
+ProgramsQuick == Arity \cup Blends \cup Stale \cup Numbers \cup Masks \cup Calls \cup ManyStems
 ProgramsThorough == ProgramsQuick \cup Deep
 
 vars == <<st, n>>
